@@ -118,7 +118,7 @@ def axis_objects():
     return [getattr(ax, n)() for n in names]
 
 
-def h_partition(ntimes, win):
+def h_partition(ntimes, win, only=None):
     def fn(S):
         data = load.modules["verif.data"]
         metric = load.modules["verif.metric"]
@@ -140,7 +140,7 @@ def h_partition(ntimes, win):
         inp = MI("A.txt", common.int_array(S, ts), S.vector(lts),
                  common.locations([5, 9], lats=[60.0, 61.5], lons=[10.0, 11.0], elevs=[100.0, 250.0]), obs=obs, fcst=fcst)
         D = data.Data([inp])
-        axes = axis_objects()
+        axes = [x for x in axis_objects() if only is None or x.name() in only]
         a = S.choose("axis", len(axes))
         axis = axes[a]
         name = axis.name()
@@ -233,6 +233,10 @@ def harnesses(tier):
         Harness("partition", h_partition(3 if thorough else 2, w_year_end), "every axis partitions the valid cases"),
         Harness("conversions", h_conversions(tier), "date / unixtime / datenum round trips"),
     ]
+    if not thorough:
+        # three init times: the cases of one bucket of a cyclic axis need not be contiguous in time
+        hs.append(Harness("partition.cyclic", h_partition(3, w_year_end, only=("Timeofday", "Dayofmonth", "Dayofyear", "Monthofyear", "Week")),
+                          "cyclic axes with three init times (non-contiguous buckets)"))
     if thorough:
         w_leap = (day_no(real_datetime.date(2024, 2, 27)), day_no(real_datetime.date(2024, 3, 1)))
         hs.append(Harness("partition.leapday", h_partition(2, w_leap), "partition around a leap day"))
